@@ -87,11 +87,18 @@ type c14G struct {
 
 var c14StackBuf = make([]byte, 8<<20)
 
-var c14BlockedStates = map[string]bool{
-	"chan send": true, "chan receive": true, "select": true, "semacquire": true,
-	"sync.Mutex.Lock": true, "sync.RWMutex.Lock": true, "sync.RWMutex.RLock": true,
-	"sync.WaitGroup.Wait": true, "sync.Cond.Wait": true, "sleep": true, "IO wait": true,
-	"chan send (nil chan)": true, "chan receive (nil chan)": true, "select (no cases)": true,
+// c14Parked: the goroutine is parked in an operation of the experiment itself - a channel
+// operation, a select, the manager mutex or a WaitGroup.  A goroutine that shows "semacquire"
+// because it waits for the runtime (e.g. mallocgc -> gcStart while this very dump holds the
+// world semaphore) is NOT parked: it continues by itself.
+func c14Parked(state, text string) bool {
+	switch state {
+	case "chan send", "chan receive", "select", "sync.Mutex.Lock", "sync.WaitGroup.Wait":
+		return true
+	case "semacquire":
+		return strings.Contains(text, "sync.(*WaitGroup).Wait") || strings.Contains(text, "sync.(*Mutex).Lock")
+	}
+	return false
 }
 
 // c14Snapshot parses a stop-the-world dump of all goroutines.
@@ -127,7 +134,7 @@ func c14Snapshot() []c14G {
 					}
 					g.state = st
 				}
-				g.blocked = c14BlockedStates[g.state]
+				g.blocked = c14Parked(g.state, s)
 				g.marked = strings.Contains(s, "controler/pause.") || strings.Contains(s, "VerifC14") ||
 					strings.Contains(s, "main.c14") || strings.Contains(s, ").worker(")
 				out = append(out, g)
@@ -146,6 +153,11 @@ func (r *c14Run) quiesce() []c14G {
 		quiet := true
 		for _, g := range gs {
 			if g.marked && !g.blocked {
+				quiet = false
+				break
+			}
+			// a stage worker counts as settled only in its main select or in the acknowledgement
+			if g.marked && strings.Contains(g.text, ").worker(") && c14InAck(g) == 3 {
 				quiet = false
 				break
 			}
